@@ -144,7 +144,15 @@ struct Abstract {
     stack: Vec<Option<String>>,
 }
 
+struct Forward;
+impl flexi_logger::filter::LogLineFilter for Forward {
+    fn write(&self, now: &mut flexi_logger::DeferredNow, record: &log::Record, w: &dyn flexi_logger::filter::LogLineWriter) -> std::io::Result<()> {
+        w.write(now, record)
+    }
+}
+
 struct St {
+    linefilter: bool,
     writers: Vec<(String, u64)>,
     kinds: HashMap<String, String>,
     flw_len: HashMap<String, u64>,
@@ -250,6 +258,7 @@ pub fn execute(ctx: &mut Ctx, lines: &[String]) -> Vec<String> {
     let _ = std::fs::remove_file(&err_path);
     let dir = ctx.work.join(format!("spec-{}-{}", std::process::id(), ctx.case_no));
     let mut st = St {
+        linefilter: false,
         kinds: HashMap::new(),
         flw_len: HashMap::new(),
         flw_paths: HashMap::new(),
@@ -307,6 +316,9 @@ pub fn execute(ctx: &mut Ctx, lines: &[String]) -> Vec<String> {
                 st.pending_note = Some((*ok == "ok", fs, rx));
                 "ok".into()
             }
+            // a user-supplied `LogLineFilter` that forwards every line it is handed: configuring it
+            // must not change which records are written
+            ["LINEFILTER"] => { st.linefilter = true; "ok".into() }
             ["WRITER", n, c, rest @ ..] => {
                 st.writers.push((unhexs(n).unwrap(), c.parse().unwrap()));
                 st.kinds.insert(unhexs(n).unwrap(), rest.first().map_or("rec0".to_string(), |k| k.to_string()));
@@ -459,6 +471,9 @@ pub fn execute(ctx: &mut Ctx, lines: &[String]) -> Vec<String> {
                             lg = lg.add_writer(n.clone(), Box::new(RecWriter { name: n.clone(), ceiling: lf(*c), sink: st.sink.clone() }));
                         }
                     }
+                }
+                if st.linefilter {
+                    lg = lg.filter(Box::new(Forward));
                 }
                 let built = lg.build().expect("build");
                 st.logger = Some(built);
@@ -1018,6 +1033,7 @@ pub fn gen_c02(tier: &str, seed: u64) -> Vec<Vec<String>> {
                 c.push(format!("EN s {l} {}", hexs(tg)));
             }
         }
+        if r.chance(1, 4) { c.push("LINEFILTER".into()); }
         c.push("INIT s".into());
         c.push(format!("GRID {}", tgs.iter().map(|t| hexs(t)).collect::<Vec<_>>().join(" ")));
         for _ in 0..r.range(4, 12) {
@@ -1066,15 +1082,21 @@ pub fn gen_c05(tier: &str, seed: u64) -> Vec<Vec<String>> {
         let nspecs = r.range(2, 5);
         let mut all_names: Vec<String> = Vec::new();
         let mut ids = Vec::new();
+        let mut prev: Option<(Vec<(Option<String>, u64)>, Option<String>)> = None;
         for i in 0..nspecs {
-            let fs = gen_filters(&mut r, 3);
+            // now and then two specifications that differ ONLY in the text filter
+            let twin = prev.is_some() && r.chance(1, 3);
+            let fs = if twin { prev.as_ref().unwrap().0.clone() } else { gen_filters(&mut r, 3) };
             all_names.extend(fs.iter().filter_map(|f| f.0.clone()));
-            let rx = if r.chance(1, 5) { Some(r.pick(&REGEXES).to_string()) } else { None };
+            let mut rx = if r.chance(1, 5) || twin { Some(r.pick(&REGEXES).to_string()) } else { None };
+            if twin && rx == prev.as_ref().unwrap().1 { rx = None; }
             c.push(format!("BUILD s{i} {} {}", filters_str(&fs), rx.as_ref().map_or("_".into(), |x| format!("r{}", hexs(x)))));
             ids.push(format!("s{i}"));
+            prev = Some((fs, rx));
         }
         let tgs = targets_for(&mut r, &all_names);
         let grid = format!("GRID {}", tgs.iter().map(|t| hexs(t)).collect::<Vec<_>>().join(" "));
+        if r.chance(1, 4) { c.push("LINEFILTER".into()); }
         c.push(format!("INIT {}", ids[0]));
         c.push(grid.clone());
         let nops = r.range(3, if tier == "thorough" { 25 } else { 14 });
@@ -1292,6 +1314,7 @@ pub fn gen_c13(tier: &str, seed: u64) -> Vec<Vec<String>> {
         let fs = gen_filters(&mut r, 2);
         let rx = if r.chance(1, 4) { Some(r.pick_s(&REGEXES).to_string()) } else { None };
         c.push(format!("BUILD s {} {}", filters_str(&fs), rx.as_ref().map_or("_".into(), |x| format!("r{}", hexs(x)))));
+        if r.chance(1, 4) { c.push("LINEFILTER".into()); }
         c.push("INIT s".into());
         let modules: Vec<String> = fs.iter().filter_map(|f| f.0.clone()).chain(["other".to_string()]).collect();
         for _ in 0..r.range(4, 14) {
